@@ -219,6 +219,14 @@ int _GD_GetScalar(DIRFILE *restrict D, const char *restrict scalar,
       index = *index_in = 0;
     }
 
+    /* an element the CARRAY doesn't have */
+    if (C->field_type == GD_CARRAY_ENTRY &&
+        (size_t)index >= C->EN(scalar,array_len))
+    {
+      dreturn("%i", GD_E_SCALAR_RANGE);
+      return GD_E_SCALAR_RANGE;
+    }
+
     _GD_DoField(D, C, repr, index, 1, type, data);
 
     if (E && (D->flags & GD_ACCMODE) == GD_RDWR) {
@@ -265,6 +273,13 @@ int _GD_CalculateEntry(DIRFILE *restrict D, gd_entry_t *restrict E, int err)
   switch(E->field_type) {
     case GD_RAW_ENTRY:
       e = _GD_GetScalar2(D, E, 0, GD_UINT_TYPE, &E->EN(raw,spf), err);
+      /* a RAW field has at least one sample per frame */
+      if (!e && E->scalar[0] && E->EN(raw,spf) == 0) {
+        e = 1;
+        if (err)
+          _GD_SetError(D, GD_E_BAD_SCALAR, GD_E_SCALAR_RANGE, E->field, 0,
+              E->scalar[0]);
+      }
       break;
     case GD_POLYNOM_ENTRY:
       for (i = 0; i <= E->EN(polynom,poly_ord); ++i) {
